@@ -310,23 +310,38 @@ func init() {
 	reg("b32dec", func(a []string) (string, []Fail) {
 		s := string(unhx(a[0]))
 		r, err := b32.DecodeString(s)
+		var hist []Fail
+		if err == nil {
+			hist = privateResultFails("C13", "b32.DecodeString", func() []byte { x, _ := b32.DecodeString(s); return x },
+				func() { b32.DecodeString(b32.EncodeToString([]byte{1, 2, 3, 4, 5})); b32.DecodeString(s + s) })
+		}
 		fails := codec32.checkDecoder(s, r, err)
 		fails = append(fails, twinDec("b32.DecodeString/DecodeStringSafe", s, b32.MAX_DECODE_SIZE, b32.DecodeString, b32.DecodeStringSafe)...)
-		return okHex(r, err), fails
+		return okHex(r, err), append(fails, hist...)
 	})
 	reg("b32decNoPad", func(a []string) (string, []Fail) {
 		s := string(unhx(a[0]))
 		r, err := b32.DecodeStringNoPadding(s)
+		var hist []Fail
+		if err == nil {
+			hist = privateResultFails("C13", "b32.DecodeStringNoPadding", func() []byte { x, _ := b32.DecodeStringNoPadding(s); return x },
+				func() { b32.DecodeStringNoPadding(strings.TrimRight(b32.EncodeToString([]byte{1, 2, 3, 4, 5, 6}), "=")); b32.DecodeStringNoPadding(s + s) })
+		}
 		fails := codec32NoPad.checkDecoder(s, r, err)
 		fails = append(fails, twinDec("b32.DecodeStringNoPadding/DecodeStringSafeNoPadding", s, b32.MAX_DECODE_SIZE, b32.DecodeStringNoPadding, b32.DecodeStringSafeNoPadding)...)
-		return okHex(r, err), fails
+		return okHex(r, err), append(fails, hist...)
 	})
 	reg("b64dec", func(a []string) (string, []Fail) {
 		s := string(unhx(a[0]))
 		r, err := b64.DecodeString(s)
+		var hist []Fail
+		if err == nil {
+			hist = privateResultFails("C13", "b64.DecodeString", func() []byte { x, _ := b64.DecodeString(s); return x },
+				func() { b64.DecodeString(b64.EncodeToString([]byte{1, 2, 3, 4, 5, 6})); b64.DecodeString(s + s) })
+		}
 		fails := codec64.checkDecoder(s, r, err)
 		fails = append(fails, twinDec("b64.DecodeString/DecodeStringSafe", s, b64.MAX_DECODE_SIZE, b64.DecodeString, b64.DecodeStringSafe)...)
-		return okHex(r, err), fails
+		return okHex(r, err), append(fails, hist...)
 	})
 
 	// ---- size-guarded variants on explicit data ----
